@@ -250,8 +250,8 @@ def var_array(v, dlen):
     code = v['dtype']
     if 'raw' in v:
         arr = dec_raw(v['raw'], DT[code], shape)
-    elif code == 'S1':
-        arr = np.array([c.encode() for c in v['data']], dtype='S1').reshape(
+    elif code.startswith('S'):
+        arr = np.array([c.encode() for c in v['data']], dtype=code).reshape(
             shape)
     else:
         arr = np.array(v['data'], dtype=DT[code]).reshape(shape)
@@ -281,6 +281,11 @@ CHAR = {'f4': 'f', 'f8': 'd', 'i2': 'h', 'i4': 'i', 'i8': 'q', 'u1': 'B',
         'i1': 'b', 'S1': 'c', 'u2': 'H', 'u4': 'I', 'u8': 'Q'}
 
 
+def _char(code):
+    # fixed-width strings wider than one character keep their numpy dtype
+    return CHAR.get(code, code)
+
+
 def build_file(spec, cls=None):
     """library object from a spec, through createDimension/createVariable"""
     if cls is None:
@@ -292,7 +297,7 @@ def build_file(spec, cls=None):
         d.setunlimited(u)
     for sv in spec['vars']:
         mv = m.vars[sv['name']]
-        code = CHAR[sv['dtype']]
+        code = _char(sv['dtype'])
         if mv.masked:
             var = f.createVariable(mv.name, code, mv.dims,
                                    fill_value=sv.get('fill'))
